@@ -1,0 +1,6 @@
+//go:build !verif
+
+package snapshot
+
+// verifPoint marks a place between two file-system operations; it does nothing unless the build tag "verif" is given.
+func verifPoint(point string, file string) {}
